@@ -17,7 +17,7 @@ NOOPS = [["status", "--porcelain"], ["log", "--oneline", "-3"], ["diff", "--stat
 class C14(C02):
     id = "C14"
     families = ["commits", "commits", "partial", "amend", "stats_mix", "human_overwrites_ai", "human_overwrites_ai",
-                "two_file_report", "two_file_report"]
+                "two_file_report", "two_file_report", "staged_mix", "staged_mix"]
     quick_runs, thorough_runs = 400, 6000
     quick_budget_s, thorough_budget_s = 170, 1800
     rule = ("one run = one commit-oriented history (plain commits, partial commits, amend) executed twice from identical "
@@ -39,7 +39,7 @@ class C14(C02):
         h = super().header(rng, tier, index)
         h["variant"] = {}
         h["cfg"]["perturb_p"] = rng.choice([0.3, 0.5, 0.8])
-        if h["cfg"]["families"][0] in ("commits", "stats_mix", "human_overwrites_ai", "two_file_report") and rng.random() < 0.6:
+        if h["cfg"]["families"][0] in ("commits", "stats_mix", "human_overwrites_ai", "two_file_report", "staged_mix") and rng.random() < 0.6:
             # people do not fire checkpoints: in the baseline world a human edit is only seen by the next AI report or
             # by the pre-commit checkpoint (safe here: these families leave nothing pending in INITIAL, so the
             # initial_positional finding cannot be met and its gate is lifted for the run)
@@ -48,7 +48,10 @@ class C14(C02):
         return h
 
     def draw_hazards(self, rng, tier):
-        return {"indent": True} if rng.random() < 0.3 else {}
+        hz = {"indent": True} if rng.random() < 0.3 else {}
+        if rng.random() < 0.35:
+            hz["twins"] = True      # an agent writes two files with identical content (snapshots coincide)
+        return hz
 
     def before_op(self, ex, i, op, cfg):
         pass
